@@ -28,7 +28,7 @@ SimStep ==
     \/ L(t, "JoinInner", JoinInner(t), 0)
     \/ L(t, "ICbAcq", ICbAcq(t), 0)
     \/ L(t, "OCbAcq", OCbAcq(t), 0)
-    \/ L(t, "CbRun", CbRun(t), task[t])
+    \/ L(t, "CbRun", CbRun(t) \/ CbFail(t), task[t])
     \/ L(t, "OCbRel", OCbRel(t), 0)
     \/ L(t, "ICbRel", ICbRel(t), 0)
     \/ L(t, "FAcq", FAcq(t), 0)
@@ -38,15 +38,15 @@ SimStep ==
     \/ L(t, "AcqBlock", AcqBlock(t), 0)
     \/ L(t, "WakeOk", WakeFit(t), 0)
     \/ L(t, "WakeBlock", WakeBlock(t), 0)
-    \/ L(t, "Write", Write(t), 0)
+    \/ L(t, "Write", Write(t) \/ WriteFail(t), 0)
     \/ L(t, "Release", Release(t), 0)
     \/ L(t, "TUnlock", TUnlock(t), 0)
 
 SimInit == MCInit /\ hist = <<>>
 SimSpec == SimInit /\ [][SimStep]_svars
 
-RawCfg == [size |-> cfg.size, obj |-> cfg.obj, fail |-> cfg.fail, cap |-> cfg.cap, mw |-> cfg.mw,
-           maxShard |-> cfg.maxShard]
+RawCfg == [size |-> cfg.size, obj |-> cfg.obj, fail |-> cfg.fail, cbfail |-> cfg.cbfail, fkind |-> cfg.fkind,
+           cap |-> cfg.cap, mw |-> cfg.mw, maxShard |-> cfg.maxShard]
 \* always TRUE; prints the finished behaviours
 EmitDone == AllDone => PrintT(ToJson([cfg |-> RawCfg, h |-> hist, files |-> file]))
 =============================================================================
